@@ -106,3 +106,37 @@ Proof.
   - intros jp kp Hk Hd. exact (ExtraRefine.gen_uncovered_size_drop_dominated cov pts hat jp kp Hk Hd).
 Qed.
 Print Assumptions C19_uncovered_count_depends_on_the_predicted_set_only.
+
+(* the regenerated gap routines and F1 assembly (Gen_extra2.v: get_smallmij, get_delta, calculate_epsilonF1_score) *)
+From VOPy Require ExtraRefine2.
+From VOPyGen Require Gen_extra2.
+Theorem C19_regenerated_gaps_are_the_modelled_gaps : forall W alpha,
+  (forall vi vj, Gen_extra2.gen_smallmij W alpha vi vj = smallm W alpha vi vj) /\
+  (forall mu, length (Gen_extra2.gen_delta W alpha mu) = length mu) /\
+  (forall mu i, (forall a, In a alpha -> 0 < a) -> (i < length mu)%nat -> nth i (Gen_extra2.gen_delta W alpha mu) 0 = delta W alpha mu i).
+Proof.
+  intros W alpha. split; [|split].
+  - exact (ExtraRefine2.gen_smallmij_is_smallm W alpha).
+  - exact (ExtraRefine2.gen_delta_length W alpha).
+  - intros mu i Hp Hi. exact (ExtraRefine2.gen_delta_is_delta W alpha mu i Hp Hi).
+Qed.
+Print Assumptions C19_regenerated_gaps_are_the_modelled_gaps.
+
+Theorem C19_regenerated_f1_score : forall cov W alpha out t p eps,
+  Gen_extra2.gen_f1_score cov W alpha out t p eps =
+    f1 (count_true_eps (Gen_extra2.gen_delta W alpha out) p eps) (length p)
+       (Gen_extra.gen_uncovered_size cov (map (fun i => nth i out []) (Gen_extra2.gen_f1_missed t p)) (map (fun i => nth i out []) p)) /\
+  (forall i, In i (Gen_extra2.gen_f1_missed t p) <-> In i t /\ ~ In i p) /\
+  (p <> [] -> 0 <= Gen_extra2.gen_f1_score cov W alpha out t p eps /\ Gen_extra2.gen_f1_score cov W alpha out t p eps <= 1) /\
+  (forall p', Permutation p p' -> Gen_extra2.gen_f1_score cov W alpha out t p eps = Gen_extra2.gen_f1_score cov W alpha out t p' eps) /\
+  (p <> [] -> (forall i, In i t -> In i p) -> (forall i, In i p -> nth i (Gen_extra2.gen_delta W alpha out) 0 <= eps) ->
+        Gen_extra2.gen_f1_score cov W alpha out t p eps == 1).
+Proof.
+  intros cov W alpha out t p eps. split; [|split; [|split; [|split]]].
+  - exact (ExtraRefine2.gen_f1_is_formula cov W alpha out t p eps).
+  - exact (ExtraRefine2.gen_f1_missed_spec t p).
+  - exact (ExtraRefine2.gen_f1_in_unit_interval cov W alpha out t p eps).
+  - intros p' P. exact (ExtraRefine2.gen_f1_order_independent cov W alpha out t p p' eps P).
+  - exact (ExtraRefine2.gen_f1_perfect cov W alpha out t p eps).
+Qed.
+Print Assumptions C19_regenerated_f1_score.
